@@ -492,6 +492,20 @@ impl Env {
         }
     }
 
+    /// A SendBlock nobody asked for: a genuine block that is recorded as matched but not proved yet.
+    pub fn unproved_block(&mut self, sim: &mut Sim, i: usize) -> bool {
+        let st = sim.state();
+        let cand = st["mmem"].as_array().and_then(|a| a.iter().find(|e| e[1] == false && e[2] == false && e[0].as_i64().unwrap_or(0) >= 1).cloned());
+        if let Some(e) = cand {
+            let bid = e[0].as_i64().unwrap() as usize - 1;
+            let content = packed::SendBlock::new_builder().block(sim.chain.blocks[bid].block.data()).build();
+            let m = packed::SyncMessage::new_builder().set(content).build();
+            self.deliver_block(sim, i, m, "true");
+            return true;
+        }
+        false
+    }
+
     /// Answers the outstanding GetBlocksProof of peer i with a mutated (definitely incorrect) message.
     pub fn mutate_blocks_proof(&mut self, sim: &mut Sim, i: usize, rng: &mut rand::rngs::StdRng) -> bool {
         use rand::Rng;
